@@ -34,7 +34,8 @@ of an object read never lies below a stream decorator, whose own fields are char
                                  (`inv3_steps`, `etod_stops_leaves`), and otherwise does not
 * `C04_callback`               : a `StreamFailFast` given to the stream decorator as its target calls its own callback once per bad
                                  outcome, independently of the decorator's `failfast` (`Shape.sff`)
-* `C04_exit`                   : exit status and summary of `testtools.run` for a module of test cases, with and without `-f`
+* `C04_exit`                   : exit status and summary of `testtools.run` for a module of test cases, with and without `-f`,
+                                 tests that call `sys.exit` included (finding `sysExitZero`: status 0 under `FAILED`)
 * `C04_failfast_kept`          : wrapping leaves the `failfast` of every result alone (D14), at any nesting depth
 Not proved (correspondence only): `TextTestResult` behind `ThreadsafeForwardingResult`.  Not stated for graphs with a stream
 pipeline (spec clauses conditioned on `noStream`; there the correspondence check alone ties model and code): verdict,
@@ -465,8 +466,8 @@ theorem prog_run : ∀ (ks : List Kind) (ff : Bool) (i : Nat) (T : Tally),
 without `-f`: the exit status is 1 exactly when some outcome is an error, a failure or an unexpected success, and
 the output is the banner, one section per problem of the tests dispatched (with `-f`: up to the first bad one),
 their count, and `OK` / `FAILED (failures=k)` with `k` the number of sections. -/
-theorem C04_exit (ff : Bool) (ks : List Kind) :
-    runProg ff ks = (if ks.any Kind.bad then 1 else 0, .running :: (tallyOf {} 0 (dispatched ff ks)).summary) := by
+theorem C04_exitK (ff : Bool) (ks : List Kind) :
+    runProgK ff ks = (if ks.any Kind.bad then 1 else 0, .running :: (tallyOf {} 0 (dispatched ff ks)).summary) := by
   have hstart : step (.text ff) (init (.text ff)) .startTestRun
       = ({ tt := ttStep { failfast := ff } .startTestRun, started := true, out := [.running] } : TextSt) := rfl
   have hrun : (run (.text ff) (init (.text ff)) ([.startTestRun] ++ progCalls ff 0 ks ++ [.stopTestRun]) : TextSt)
@@ -475,7 +476,7 @@ theorem C04_exit (ff : Bool) (ks : List Kind) :
     rfl
   have hT : tallyOfTT (ttStep { failfast := ff } .startTestRun) = {} := by
     simp [ttStep, TT.reset, tallyOfTT, Call.logged]
-  simp only [runProg]
+  simp only [runProgK]
   rw [hrun]
   refine Prod.ext ?_ ?_
   · -- exit status
@@ -494,6 +495,34 @@ theorem C04_exit (ff : Bool) (ks : List Kind) :
     simp only
     rw [text_out _ _ rfl, hT, prog_tally]
     simp [textSpec]
+
+/-- a `sys.exit` test that is reached is reported as an error: the summary printed is `FAILED` -/
+theorem progExit_bad (ff : Bool) : ∀ (ps : List PKind) (c : Option Nat), progExit ff ps = some c →
+    (progKinds ps).any Kind.bad = true
+  | [], _, h => by simp [progExit] at h
+  | .exit c :: ps, _, _ => by simp [progKinds, cutAtExit, PKind.kind, Kind.bad]
+  | .out k :: ps, c, h => by
+      simp only [progExit] at h
+      split at h
+      · cases h
+      · have := progExit_bad ff ps c h
+        simp only [progKinds, cutAtExit, List.map_cons, List.any_cons, Bool.or_eq_true] at this ⊢
+        exact .inr this
+
+/-- **C04 (exit status and summary of `testtools.run`, tests that call `sys.exit` included).**  The output is the banner,
+one section per problem of the tests dispatched (with `-f`: up to the first bad one; nothing after a test that calls
+`sys.exit`, which is itself reported as an error), their count and `OK` / `FAILED`.  The exit status is 1 exactly when
+some outcome is bad — unless a test that calls `sys.exit(code)` is reached: then it is `code` (`None`: 0), although the
+summary says `FAILED` (`progExit_bad`): for `code` 0 / `None` the status contradicts the summary (finding
+`sysExitZero`). -/
+theorem C04_exit (ff : Bool) (ps : List PKind) :
+    runProg ff ps =
+      (match progExit ff ps with
+        | some c => c.getD 0
+        | none => if (progKinds ps).any Kind.bad then 1 else 0,
+       .running :: (tallyOf {} 0 (dispatched ff (progKinds ps))).summary) := by
+  simp only [runProg, C04_exitK]
+  cases progExit ff ps <;> rfl
 
 /-! ### every `TextTestResult` below adapters (no `ThreadsafeForwardingResult`) -/
 def textAbs : LeafSt → Option (Bool × Tally × List Out)
@@ -3382,9 +3411,10 @@ theorem ffStops_states (s : Shape) (hw : s.wf = true) (ho : adaptLeaves s = true
 /-- **Headline (partial).**  Full statement: `∀ i, i.shape.wf → Spec.C04.holds i (model i) = true`.  Proved here for every
 input whose graph has no `TextTestResult` behind a `ThreadsafeForwardingResult`: all thirteen clauses, on every graph the
 clause speaks about — stream pipelines (`ExtendedToStreamDecorator` + `StreamFailFast`) included for `failfast-kept`,
-`failfast-read`, `failfast-stops`, `stop-sets`, `stop-sticky`, `not-earlier` (no finding class is left). -/
+`failfast-read`, `failfast-stops`, `stop-sets`, `stop-sticky`, `not-earlier`; outside the finding class `sysExitZero`
+(a test calling `sys.exit(0)` / `sys.exit()` is reached by `testtools.run`: exit status 0 under a `FAILED` summary). -/
 theorem holds_model_partial (i : Input) (hw : i.shape.wf = true)
-    (ht : i.shape.hasTfr = false ∨ hasText i.shape = false)
+    (ht : i.shape.hasTfr = false ∨ hasText i.shape = false) (hfind : sysExitZero i = false)
     : holds i (model i) = true := by
   simp only [holds, clauses, List.all_cons, List.all_nil, Bool.and_true, Bool.and_eq_true]
   have scope : inScope i = true → i.hist.all Call.ok = true ∧ ownLeaves i.shape = true ∧
@@ -3526,12 +3556,19 @@ theorem holds_model_partial (i : Input) (hw : i.shape.wf = true)
     exact C04_callback hist (init .sff)
   · -- exit status
     simp only [cExit, model]
-    cases i.prog with
+    cases hp : i.prog with
     | none => rfl
     | some p =>
-      obtain ⟨ff, ks⟩ := p
-      simp only [Option.map_some, C04_exit]
-      simp
+      obtain ⟨ff, ps⟩ := p
+      simp only [Option.map_some, C04_exit, Bool.and_eq_true, beq_iff_eq, and_true]
+      simp only [sysExitZero, hp] at hfind
+      cases he : progExit ff ps with
+      | none => simp
+      | some c =>
+        rw [he] at hfind
+        cases c with
+        | none => simp at hfind
+        | some n => cases n <;> simp_all
 
 /-! ## non-vacuity -/
 /-- `failfast` assigned on a `ThreadsafeForwardingResult` that is reported to directly is honoured (regression of
@@ -3605,6 +3642,17 @@ example :
        (some true, false, [1]), (some true, false, [1]), (some true, true, [2]), (some true, true, [2])] := by
   decide
 
+/-- the finding `sysExitZero` in the model: a module whose second test calls `sys.exit(0)`: the error is recorded, the
+third test is never dispatched, the summary says `FAILED (failures=1)` — and the exit status is 0; the exit-status
+clause fails, all others hold.  With `sys.exit(3)` the status agrees with the summary. -/
+example :
+    let i : Input := { shape := .tt false, hist := [], prog := some (false, [.out .success, .exit (some 0), .out .failure]) }
+    let j : Input := { i with prog := some (false, [.out .success, .exit (some 3), .out .failure]) }
+    sysExitZero i = true ∧ (model i).exit = some (0, [.running, .sect 0 1, .ran 2, .failed 1]) ∧
+    cExit i (model i) = false ∧ (clauses.filter (fun c => !c.2 i (model i))).map (·.1) = ["exit-status"] ∧
+    sysExitZero j = false ∧ (model j).exit = some (3, [.running, .sect 0 1, .ran 2, .failed 1]) ∧ holds j (model j) = true := by
+  decide
+
 /-- nested `MultiTestResult`s with different `failfast` settings keep them (regression of the former finding
 `nestedMultiFailfast`), and the second target still stops the run -/
 example :
@@ -3620,7 +3668,7 @@ example :
       { shape := .multi [.etod (.tfr (.etod (.tt true))), .etod (.text false)],
         hist := [.startTestRun, .startTest 1, .add .success 1 .none, .stopTest 1, .startTest 2, .add .failure 2 (.exc .real),
                  .stopTest 2, .stopTestRun, .startTestRun, .stopTestRun],
-        prog := some (true, [.success, .uxsuccess, .error]) }
+        prog := some (true, [.out .success, .out .uxsuccess, .out .error]) }
     inScope i = true ∧ holds i (model i) = true ∧
     (model i).obs.map (fun o => (o.ws, o.ss)) =
       [(true, false), (true, false), (true, false), (true, false), (true, false), (false, true), (false, true),
